@@ -189,6 +189,8 @@ def driver_loop(self, st, spec, iterable):
             v = self.eval_spec_expr(inv, env)
             self.oblige(f"{kind}#{idx}", v, {"loop": spec.get("name", ""), "inv": inv})
 
+    for gname, gexpr in spec.get("ghost", {}).items():
+        env[gname] = self.eval_spec_expr(gexpr, env)
     check_invs("inv-init")
     # havoc
     names = _assigned_names(st.body)
